@@ -45,7 +45,8 @@ THEOREMS = [P + t for t in (
     ["no_value_piece_data_independent", "value_free_text_depends_only_on_identifiers", "wellformed_extends_to_all_values",
      "all_sites_classified", "value_free_except_listed", "data_independent_except_listed", "params_supplied",
      "wellformed_canonical", "wellformed_all_values_except_listed", "injection_rewrites_statement", "leaked_values_exact",
-     "leaks_nil_of_value_free_atom", "data_independent_up_to_leaks_partial"]
+     "leaks_nil_of_value_free_atom", "data_independent_up_to_leaks_partial", "wellformed_empty_containers_except_listed",
+     "get_matching_nodes_empty_props_dangling_comma_counterexample"]
     + [s + "_value_free" for s in VALUE_FREE_SITES]
     + [s + "_value_dependent_counterexample" for s in VALUE_DEPENDENT_SITES])]
 TRUSTED_BASE = [
@@ -382,7 +383,7 @@ def calls():
         Call("get_nodes_on_shortest_path", PG, "get_nodes_on_shortest_path", {"rel": "rels?"}, ["node_a", "node_z"],
              expect=lambda c, nv: [(_k(PG, "get_nodes_on_shortest_path"), 0 if c["idents"].get("rel") is None else 1)]),
         Call("get_nodes_on_path_with_hops", PG, "get_nodes_on_path_with_hops", values=["node_a", "node_z", "cut_off"],
-             kwargs=lambda c: {"hops": [c["values"]["node_z"]]}, expect=lambda c, nv: [(_k(PG, "get_nodes_on_path_with_hops"), 0)]),
+             kwargs=lambda c: {"hops": [] if c.get("empty_hops") else [c["values"]["node_z"]]}, expect=lambda c, nv: [(_k(PG, "get_nodes_on_path_with_hops"), 0)]),
         Call("get_first_neighbor", PG, "get_first_neighbor", {"rel": "rels", "node_label": "classes"}, ["node_id"],
              expect=lambda c, nv: [(_k(PG, "get_first_neighbor"), 0)]),
         Call("get_first_and_second_neighbor", PG, "get_first_and_second_neighbor",
@@ -673,10 +674,10 @@ def gen_maps(call, rng, mode, keys=None):
             n = rng.choice([0, 1, 1, 2, 3])
             ks = rng.sample(V["props"], n) if (n or must or rng.random() < 0.6) else None     # "!" = the call asserts props is not None
         elif mm == "merge_properties":
-            ks = None if rng.random() < 0.3 else rng.sample(MERGE_KEYS, rng.choice([1, 2, 3]))
+            ks = None if rng.random() < 0.3 else rng.sample(MERGE_KEYS, rng.choice([0, 1, 2, 3]))
         else:
             ks = None if rng.random() < 0.3 else [(rng.choice(["GPU", "SmartNIC", "SharedNIC", "NVME", "FPGA"]), rng.random() < 0.8)
-                                                 for _ in range(rng.choice([1, 2, 3, 4]))]
+                                                 for _ in range(rng.choice([0, 1, 2, 3, 4]))]
         if ks is None:
             maps[mm] = None
         elif mm == "props":
@@ -727,11 +728,43 @@ def corpus_cases():
     return out
 
 
+def corner_groups(call, rng):
+    """deterministic corner cases, always generated first: every mapping argument None (where the call allows it), EMPTY and with one
+    entry, in every combination; every optional identifier both defaulted and supplied; an empty hop list"""
+    V = voc()
+    opts = []
+    for m in call.maps:
+        must = m.endswith("!")
+        mm = m.rstrip("!")
+        one = {"props": [V["props"][0]], "merge_properties": [("name", "overwrite")], "comps": [("GPU", True)]}[mm]
+        two = {"props": V["props"][1:3], "merge_properties": [("name", "discard"), ("`.*`", "combine")],
+               "comps": [("GPU", True), ("GPU", True), ("SharedNIC", False)]}[mm]
+        opts.append([(mm, k) for k in (([] if must else [None]) + [[], one, two])])
+    id_opts = []
+    for slot in sorted(call.idents):
+        d = call.idents[slot]
+        dom = V["props" if d == "props_unsettable" else d.rstrip("?")]
+        first = [p for p in dom if p not in ("GraphID", "NodeID", "Class", "Name", "Type")][0] if d == "props_unsettable" else dom[0]
+        id_opts.append([(slot, v) for v in (([None] if d.endswith("?") else []) + [first])])
+    out = []
+    for mc in itertools.product(*opts):
+        for ic in itertools.product(*id_opts):
+            keys = dict(mc)
+            for flags in ([{}, {"empty_hops": True}] if call.name == "get_nodes_on_path_with_hops" else [{}]):
+                base = dict({"call": call.name, "idents": dict(ic), "values": gen_values(call, rng, "benign"),
+                             "maps": gen_maps(call, rng, "benign", keys=keys)}, **flags)
+                adv = dict({"call": call.name, "idents": dict(ic), "values": gen_values(call, rng, "adv"),
+                            "maps": gen_maps(call, rng, "adv", keys=keys)}, **flags)
+                out.append((base, [adv]))
+    return out
+
+
 def gen_cases(ctx, tag, per_call_idents, n_values, min_groups=8):
     """-> list of (benign case, [adversarial cases with the same identifiers and map keys])"""
     rng = ctx.sub_rng(tag)
     groups = []
     for call in calls():
+        groups.extend(corner_groups(call, rng))
         combos, total = ident_choices(call, rng, per_call_idents)
         # calls with few identifier choices but stored values / mappings get more value assignments
         if (call.values or call.maps) and len(combos) < min_groups:
@@ -761,6 +794,7 @@ def correspondence(ctx, res):
     tab = nvariants_table()
     nv = lambda k: tab.get(k, 0)
     driven_keys = set()
+    driven_variants = set()
     groups = gen_cases(ctx, "corr", ctx.scale(40, 100000), ctx.scale(2, 6), ctx.scale(8, 40))
     cases = []
     for c in corpus_cases():
@@ -793,6 +827,7 @@ def correspondence(ctx, res):
         for (text, pnames, _), ex in zip(rec, exp):
             key, variant = ex[0], ex[1]
             driven_keys.add(key)
+            driven_variants.add((key, variant))
             ids, vals, maps = model_env(case, ex[2] if len(ex) > 2 else None)
             reqs.append(json.dumps(["render", key, variant, ids, vals, maps]))
             meta.append((case, key, variant, text, pnames))
@@ -821,6 +856,12 @@ def correspondence(ctx, res):
     missing = sorted(set(tab) - driven_keys)
     if missing:
         res.disagreements.append({"case": "coverage", "impl": "call sites never reached by the harness", "model": missing})
+    all_variants = {(k, v) for k, n in tab.items() for v in range(n)}
+    missing_v = sorted(all_variants - driven_variants)
+    if missing_v:
+        res.disagreements.append({"case": "coverage", "impl": "template variants (if/else branches, table entries) never reached by the harness",
+                                  "model": [list(x) for x in missing_v]})
+    ctx.notes.append("correspondence reached %d of %d template variants" % (len(all_variants & driven_variants), len(all_variants)))
     ctx.notes.append("correspondence drove %d call sites of %d generated" % (len(driven_keys), len(tab)))
 
 
